@@ -1054,7 +1054,7 @@ func (t *Tracer) inline(fr *Frame, c ssa.CallInstruction, f *ssa.Function) bool 
 			return true
 		}
 		top := TopLevel(t.Root)
-		if f.Pkg != nil && top.Pkg != nil && f.Pkg == top.Pkg && f.Object() != nil && !f.Object().Exported() && fr.Depth < 5 {
+		if f.Pkg != nil && top.Pkg != nil && f.Pkg == top.Pkg && f.Object() != nil && (!f.Object().Exported() || isSmallPredicate(f)) && fr.Depth < 5 {
 			if t.Spec.Branch != nil && isParamPredicate(f) {
 				return true // what it decides is a fact about the caller's arguments; one block, cheap
 			}
@@ -1078,7 +1078,26 @@ func (t *Tracer) DecidedInHelper(i *ssa.If) bool {
 		return false
 	}
 	sf := call.Call.StaticCallee()
-	return sf != nil && t.isRepo(sf) && (t.interesting(sf, 0) || isParamPredicate(sf))
+	if sf == nil || !t.isRepo(sf) || sf.Object() == nil {
+		return false
+	}
+	if sf.Object().Exported() && !isSmallPredicate(sf) {
+		return false // not descended into: its decision is the caller's
+	}
+	return t.interesting(sf, 0) || isParamPredicate(sf)
+}
+
+// isSmallPredicate: a bool function without calls and with at most three
+// blocks (IsSent, IsValidStatus): viewed like an unexported predicate helper.
+func isSmallPredicate(f *ssa.Function) bool {
+	res := f.Signature.Results()
+	if res.Len() != 1 || len(f.Blocks) == 0 || len(f.Blocks) > 3 {
+		return false
+	}
+	if b, ok := res.At(0).Type().Underlying().(*types.Basic); !ok || b.Kind() != types.Bool {
+		return false
+	}
+	return len(callsIn(f)) == 0
 }
 
 // isParamPredicate: a one-block function returning a boolean expression over
